@@ -104,4 +104,22 @@ def handleAnalysis (toks : List String) : String :=
         ++ (if tableOk then " table=ok" else " table=missing")
   | _ => "bad-op"
 
+
+/-- `loopctx ( bodies … )`: the verdict of the checker model on `break`/`continue` placement and captured assignment
+    (`accept` / `reject`); an accepted program never makes the code generator's loop stack run empty (C03_loop_ctx_agree) —
+    should the model ever say otherwise the answer is `accept codegen-panic`. -/
+def handleLoopCtx (toks : List String) : String :=
+  match parseSExp toks with
+  | some (.list (.atom "bodies" :: bs), []) =>
+    let bodies := allSome (bs.map fun b => match b with
+      | .list [.atom "body", .list (.atom "params" :: ps), e] => do some ((← natsOf ps), (← toRExpr e))
+      | _ => none)
+    match bodies with
+    | none => "bad-op"
+    | some bodies =>
+      if bodies.all fun (_, e) => checkerLoopsE false e && checkerAssignE none e then
+        (if bodies.all fun (_, e) => codegenLoopsE 0 e then "accept" else "accept codegen-panic")
+      else "reject"
+  | _ => "bad-op"
+
 end Abra.Drv
